@@ -442,3 +442,27 @@ func (n *Net) Describe(group []int) string {
 
 // Tracef appends a line to the schedule log.
 func (n *Net) Tracef(f string, a ...interface{}) { n.tracef(f, a...) }
+
+// FireTimeoutNoDrain fires the node's pending timeout and leaves its own messages in its queue.
+func (n *Net) FireTimeoutNoDrain(i int) bool {
+	if n.down(i) {
+		return false
+	}
+	nd := n.Nodes[i]
+	ti, ok := nd.Tick.Take()
+	if !ok {
+		return false
+	}
+	if n.OnTimeout != nil {
+		n.OnTimeout(i, ti)
+	}
+	if n.WriteWAL {
+		nd.CS.VerifWAL().Write(ti)
+	}
+	n.Steps++
+	nd.CS.VerifHandleTimeout(ti)
+	if n.After != nil {
+		n.After()
+	}
+	return true
+}
